@@ -60,7 +60,7 @@ Definition illegal_conflict (allow_conflicts : bool) (t : tree) (parent : option
 
 (* what one run of the update callback decides: reject with 409, nothing to add (a pushed revision that is
    already known), or the list of revisions to add (oldest first) *)
-Inductive pcheck := PConflict | PCancel | PAdd (newrevs : list revinfo).
+Inductive pcheck := PConflict | PCancel | PFailAdd | PAdd (newrevs : list revinfo).
 
 (* REST Put *)
 Definition put_check (ac : bool) (t : tree) (parent : option revid) (deleted : bool) : option (option revid) :=
@@ -104,10 +104,15 @@ Record wop := { w_tag : N; w_parent : option revid; w_deleted : bool;
 Inductive outcome := OAck (r : revid) (s : N) | OConflict | OForbidden | OFailed | OCancel | OUnsupported.
 
 Record docstate := { d_cas : N; d_seq : N; d_unused : list N; d_tree : tree }.
-Record prepared := { p_cas : N; p_doc : docstate; p_rev : revid }.
-Record writer := { w_op : wop; w_attempt : nat; w_docseq : N; w_unusedseqs : list N; w_prep : option prepared; w_out : option outcome }.
+Record prepared := { p_cas : N; p_doc : docstate; p_rev : revid;
+                     p_resurrect : bool (* the snapshot was a tombstone and the new current revision is live: the storage
+                                           layer writes it with insert semantics, WITHOUT the compare-and-swap *) }.
+Record writer := { w_op : wop; w_attempt : nat;
+                   w_matchrev : option revid; (* db.Put keeps the parent it picked for a request without _rev across CAS retries *)
+                   w_docseq : N; w_unusedseqs : list N; w_prep : option prepared; w_out : option outcome }.
 
-Record commit := { c_rev : revid; c_parent : option revid; c_seq : N; c_unused : list N; c_prevseq : N }.
+Record commit := { c_rev : revid; c_parent : option revid; c_seq : N; c_unused : list N; c_prevseq : N;
+                   c_put : bool (* made by a REST Put (as opposed to a pushed revision) *) }.
 
 Record world := { st : docstate; last : N; released : list N; ws : list writer; commits : list commit }.
 
@@ -122,7 +127,7 @@ Fixpoint dig_lookup (tab : digtab) (k : digkey) : option N :=
 
 Definition init_doc : docstate := {| d_cas := 0; d_seq := 0; d_unused := []; d_tree := [] |}.
 Definition new_writer (o : wop) : writer :=
-  {| w_op := o; w_attempt := 0; w_docseq := 0; w_unusedseqs := []; w_prep := None; w_out := None |}.
+  {| w_op := o; w_attempt := 0; w_matchrev := None; w_docseq := 0; w_unusedseqs := []; w_prep := None; w_out := None |}.
 Definition init_world (ops : list wop) : world :=
   {| st := init_doc; last := 0; released := []; ws := map new_writer ops; commits := [] |}.
 
@@ -138,7 +143,7 @@ Definition carried_seqs (docseq : N) (unused : list N) : list N :=
 
 (* the error path of updateAndReturnDoc: the writer gives back docSequence and its unused list *)
 Definition finish_failed (w : writer) (docseq : N) (unused : list N) (o : outcome) : writer * list N :=
-  ({| w_op := w_op w; w_attempt := w_attempt w; w_docseq := 0; w_unusedseqs := []; w_prep := None; w_out := Some o |},
+  ({| w_op := w_op w; w_attempt := w_attempt w; w_matchrev := w_matchrev w; w_docseq := 0; w_unusedseqs := []; w_prep := None; w_out := Some o |},
    carried_seqs docseq unused).
 
 Definition rev_parent_of (d : docstate) (r : revid) : option revid :=
@@ -146,10 +151,22 @@ Definition rev_parent_of (d : docstate) (r : revid) : option revid :=
 
 Definition rev_last (l : list revinfo) : option revinfo := List.last (map Some l) None.
 
+(* db.Put deletes _deleted from the request body inside the update callback, so on a CAS retry the revision
+   id of a tombstone is computed from a different byte string than at the first attempt *)
+Definition dig_tag (o : wop) (attempt : nat) : N :=
+  if w_deleted o && negb (Nat.eqb attempt 0) then w_tag o + 1000000 else w_tag o.
+
 Definition gen_of (p : option revid) : N := match p with Some r => fst r | None => 0 end.
+
+Definition is_tombstone (d : docstate) : bool :=
+  match winner (d_tree d) with Some w => r_deleted w | None => false end.
 
 Section Step.
   Variable fixed : bool.
+  (* [true]: faithful to the storage layer -- resurrecting a tombstone (WriteResurrectionWithXattrs) is not
+     CAS-checked: it succeeds whenever the stored document is still a tombstone, even if it changed since it was
+     read (known finding, C05_Refuted.v).  [false]: the intended discipline, every write is compare-and-swap. *)
+  Variable resurrect_unchecked : bool.
   Variable allow_conflicts : bool.
   Variable tab : digtab.
 
@@ -160,13 +177,22 @@ Section Step.
       {| st := st s; last := lst; released := released s ++ rel; ws := set_nth i w' (ws s); commits := commits s |} in
     (* unused sequences as the caller still knows them after a failing attempt *)
     let kept := if fixed then w_unusedseqs w else [] in
+    (* a Put without _rev that once found a tombstoned current revision keeps it as its parent on retries *)
+    let parent_eff := match w_parent o with Some p => Some p | None => w_matchrev w end in
+    let match' := match w_push o, w_parent o, put_check allow_conflicts (d_tree snap) parent_eff (w_deleted o) with
+                  | [], None, Some (Some p) => Some p
+                  | _, _, _ => w_matchrev w
+                  end in
     let plan : option pcheck :=
       match w_push o with
-      | [] => match put_check allow_conflicts (d_tree snap) (w_parent o) (w_deleted o) with
+      | [] => match put_check allow_conflicts (d_tree snap) parent_eff (w_deleted o) with
               | None => Some PConflict
-              | Some par => match dig_lookup tab (w_tag o, par) with
+              | Some par => match dig_lookup tab (dig_tag o (w_attempt w), par) with
                             | None => None
-                            | Some dg => Some (PAdd [{| r_id := (gen_of par + 1, dg); r_parent := par; r_deleted := w_deleted o |}])
+                            | Some dg =>
+                                (* RevTree.addRevision refuses a revision id the tree already contains *)
+                                if has_rev (d_tree snap) (gen_of par + 1, dg) then Some PFailAdd
+                                else Some (PAdd [{| r_id := (gen_of par + 1, dg); r_parent := par; r_deleted := w_deleted o |}])
                             end
               end
       | hist => Some (push_check allow_conflicts (d_tree snap) hist (w_deleted o))
@@ -175,6 +201,7 @@ Section Step.
     | None => let '(w', rel) := finish_failed w (w_docseq w) kept OUnsupported in upd w' rel (last s)
     | Some PConflict => let '(w', rel) := finish_failed w (w_docseq w) kept OConflict in upd w' rel (last s)
     | Some PCancel => let '(w', rel) := finish_failed w (w_docseq w) kept OCancel in upd w' rel (last s)
+    | Some PFailAdd => let '(w', rel) := finish_failed w (w_docseq w) kept OFailed in upd w' rel (last s)
     | Some (PAdd newrevs) =>
         if w_reject o then let '(w', rel) := finish_failed w (w_docseq w) kept OForbidden in upd w' rel (last s)
         else
@@ -192,24 +219,31 @@ Section Step.
                 upd w' rel last'
               else
                 let nd := {| d_cas := d_cas snap + 1; d_seq := docseq'; d_unused := unused'; d_tree := t' |} in
-                upd {| w_op := o; w_attempt := S (w_attempt w); w_docseq := docseq'; w_unusedseqs := unused';
-                       w_prep := Some {| p_cas := d_cas snap; p_doc := nd; p_rev := newid |}; w_out := None |} [] last'
+                upd {| w_op := o; w_attempt := S (w_attempt w); w_matchrev := match'; w_docseq := docseq'; w_unusedseqs := unused';
+                       w_prep := Some {| p_cas := d_cas snap; p_doc := nd; p_rev := newid;
+                                         p_resurrect := is_tombstone snap && negb (is_tombstone nd) |}; w_out := None |} [] last'
     end.
 
+  Definition write_gate (s : world) (p : prepared) : bool :=
+    (p_cas p =? d_cas (st s)) || (resurrect_unchecked && p_resurrect p && is_tombstone (st s)).
+
   Definition write (s : world) (i : nat) (w : writer) (p : prepared) : world :=
-    if p_cas p =? d_cas (st s) then
+    if write_gate s p then
       if w_fail_write (w_op w) then
         let '(w', rel) := finish_failed w (w_docseq w) (w_unusedseqs w) OFailed in
         {| st := st s; last := last s; released := released s ++ rel; ws := set_nth i w' (ws s); commits := commits s |}
       else
-        {| st := p_doc p; last := last s; released := released s;
-           ws := set_nth i {| w_op := w_op w; w_attempt := w_attempt w; w_docseq := 0; w_unusedseqs := []; w_prep := None;
+        {| st := if p_cas p =? d_cas (st s) then p_doc p
+                 else {| d_cas := d_cas (st s) + 1; d_seq := d_seq (p_doc p); d_unused := d_unused (p_doc p); d_tree := d_tree (p_doc p) |};
+           last := last s; released := released s;
+           ws := set_nth i {| w_op := w_op w; w_attempt := w_attempt w; w_matchrev := w_matchrev w; w_docseq := 0; w_unusedseqs := []; w_prep := None;
                               w_out := Some (OAck (p_rev p) (d_seq (p_doc p))) |} (ws s);
            commits := commits s ++ [{| c_rev := p_rev p; c_parent := rev_parent_of (p_doc p) (p_rev p);
-                                       c_seq := d_seq (p_doc p); c_unused := d_unused (p_doc p); c_prevseq := d_seq (st s) |}] |}
+                                       c_seq := d_seq (p_doc p); c_unused := d_unused (p_doc p); c_prevseq := d_seq (st s);
+                                       c_put := match w_push (w_op w) with [] => true | _ => false end |}] |}
     else (* CAS mismatch: run the callback again *)
       {| st := st s; last := last s; released := released s;
-         ws := set_nth i {| w_op := w_op w; w_attempt := w_attempt w; w_docseq := w_docseq w; w_unusedseqs := w_unusedseqs w; w_prep := None; w_out := None |} (ws s);
+         ws := set_nth i {| w_op := w_op w; w_attempt := w_attempt w; w_matchrev := w_matchrev w; w_docseq := w_docseq w; w_unusedseqs := w_unusedseqs w; w_prep := None; w_out := None |} (ws s);
          commits := commits s |}.
 
   Inductive sstep := Prepare (i : nat) | Write (i : nat).
